@@ -42,9 +42,13 @@ def run_tests(d):
 
 
 def run_check(pid, d, tier):
-    env = dict(os.environ, VERIF_REPO=d)
+    out = tempfile.mkdtemp(prefix="vmon-out-")  # evidence/replays of self-test runs never touch /verif's own
+    env = dict(os.environ, VERIF_REPO=d, VERIF_OUT=out)
     t0 = time.time()
-    p = subprocess.run([os.path.join(HERE, "check"), pid, "--tier", tier], cwd=HERE, capture_output=True, text=True, env=env, timeout=3000)
+    try:
+        p = subprocess.run([os.path.join(HERE, "check"), pid, "--tier", tier], cwd=HERE, capture_output=True, text=True, env=env, timeout=3000)
+    finally:
+        shutil.rmtree(out, ignore_errors=True)
     viol = [l for l in p.stdout.splitlines() if l.startswith("VIOLATION")]
     keys = [l.strip() for l in p.stdout.splitlines() if l.strip().startswith("key=")]
     return p.returncode, viol, keys, time.time() - t0
@@ -57,13 +61,8 @@ def main():
     no_tests = "--no-tests" in sys.argv
     tier = "quick"
     ms = [m for m in MUTANTS if not args or any(a in m["name"] for a in args)]
-    # evidence and replays are rewritten by checks: keep the real ones aside
-    keep = tempfile.mkdtemp(prefix="vmon-keep-")
-    for sub in ("evidence", "replays"):
-        if os.path.isdir(os.path.join(HERE, sub)):
-            shutil.copytree(os.path.join(HERE, sub), os.path.join(keep, sub))
     results = []
-    try:
+    if True:
         for m in ms:
             d = make_scratch()
             try:
@@ -82,12 +81,6 @@ def main():
                 print(f"{m['name']:<46} ERROR {e}", flush=True)
             finally:
                 shutil.rmtree(d, ignore_errors=True)
-    finally:
-        for sub in ("evidence", "replays"):
-            shutil.rmtree(os.path.join(HERE, sub), ignore_errors=True)
-            if os.path.isdir(os.path.join(keep, sub)):
-                shutil.copytree(os.path.join(keep, sub), os.path.join(HERE, sub))
-        shutil.rmtree(keep, ignore_errors=True)
     out = os.path.join(HERE, "vmon", "selftest", "last_results.json")
     prev = []
     if args and os.path.exists(out):
